@@ -741,3 +741,141 @@ def traffic_cases(draw, model=None):
 
 
 PARTS = [Part("traffic", traffic_cases(), check_traffic, n_quick=600, n_thorough=3000)]
+
+
+# --------------------------------------------------------------------------
+# part "kernel": traces produced by the library's own tracing of a kernel
+# --------------------------------------------------------------------------
+
+# slot -> (tensor, rank, read trace, write trace)
+SLOTS = {
+    "ZN": ("Z", "N", "N-populate_read_0", "N-populate_write_0"),
+    "BN": ("B", "N", "N-populate_1", None),
+    "AK": ("A", "K", "K-intersect_0", None),
+    "BK": ("B", "K", "K-intersect_1", None),
+    "AM": ("A", "M", "M-populate_1", None),
+}
+TENSOR_RANKS = {"A": ["M", "K"], "B": ["K", "N"], "Z": ["M", "N"]}
+
+
+def trace_kernel(case, d):
+    """Z_mn = A_mk * B_kn (Gustavson, output populated in place) under
+    Metrics tracing, exactly the idiom of test_traffic.py."""
+    from fibertree import Metrics
+    M, K, N = case["dims"]
+    A_MK = Tensor.fromUncompressed(["M", "K"], case["A"], shape=[M, K])
+    B_KN = Tensor.fromUncompressed(["K", "N"], case["B"], shape=[K, N])
+    Z_MN = Tensor(rank_ids=["M", "N"], shape=[M, N])
+    a_m, b_k, z_m = A_MK.getRoot(), B_KN.getRoot(), Z_MN.getRoot()
+    if Metrics.isCollecting():
+        Metrics.endCollect()
+    Metrics.beginCollect(os.path.join(d, "k"))
+    try:
+        Metrics.trace("M", type_="populate_1")
+        Metrics.trace("K", type_="intersect_0")
+        Metrics.trace("K", type_="intersect_1")
+        Metrics.trace("N", type_="populate_read_0")
+        Metrics.trace("N", type_="populate_write_0")
+        Metrics.trace("N", type_="populate_1")
+        for m, (z_n, a_k) in z_m << a_m:
+            for k, (a_val, b_n) in a_k & b_k:
+                for n, (z_ref, b_val) in z_n << b_n:
+                    z_ref += a_val * b_val
+    finally:
+        Metrics.endCollect()
+
+
+def parse_trace(path, n):
+    """rows of a trace file; None when the file is missing or has no header
+    (the loop of that rank never ran)"""
+    if not os.path.exists(path):
+        return None
+    with open(path) as f:
+        lines = f.read().splitlines()
+    if not lines or lines[0] != header(LOOP, n):
+        return None
+    return [[int(v) for v in ln.split(",")] for ln in lines[1:]]
+
+
+def check_kernel(case, rec):
+    d = tempfile.mkdtemp(prefix="c17k-")
+    try:
+        trace_kernel(case, d)
+        files = {}
+        for slot, (_, rank, rd, wr) in SLOTS.items():
+            n = LOOP.index(rank) + 1
+            files[slot] = (n, parse_trace(os.path.join(d, f"k-{rd}.csv"), n),
+                           parse_trace(os.path.join(d, f"k-{wr}.csv"), n) if wr else None)
+    finally:
+        shutil.rmtree(d, ignore_errors=True)
+    traces = []
+    bindings = []
+    layouts = {}
+    for b in case["bind"]:
+        n, rd, wr = files[b["slot"]]
+        if rd is None:
+            continue
+        for rows in (rd, wr or []):
+            st_ = [tuple(r[:n]) for r in rows]
+            if any(x >= y for x, y in zip(st_, st_[1:])):
+                rec.cls("kernel-trace-not-strictly-increasing")
+                return
+        tensor, rank = SLOTS[b["slot"]][:2]
+        traces.append({"depth": n, "read": rd, "write": wr})
+        types = ["coord", "payload"] if b["mode"] == "coord+payload" else [b["mode"]]
+        layouts[tensor, rank] = "interleaved" if b["mode"] == "elem" else "contiguous"
+        for ty in types:
+            e = {"tensor": tensor, "rank": rank, "type": ty, "trace": len(traces) - 1}
+            if case["model"] == "buffet":
+                e["evict"] = b["evict"]
+            bindings.append(e)
+    if not bindings:
+        rec.cls("no-trace-produced")
+        return
+    dims = dict(zip("MKN", case["dims"]))
+    tensors = []
+    for name, ranks in TENSOR_RANKS.items():
+        tensors.append({"name": name, "ranks": [[r, r] for r in ranks], "shape": [dims[r] for r in ranks],
+                        "fmt": [{"layout": layouts.get((name, r), "contiguous"),
+                                 "cbits": case["bits"][name + r][0], "pbits": case["bits"][name + r][1]}
+                                for r in ranks]})
+    case2 = {"model": case["model"], "order": list(LOOP), "tensors": tensors, "bindings": bindings,
+             "traces": traces, "line_sz": case["line_sz"], "capacity": case["capacity"],
+             "capacity2": case["capacity2"], "rot": case["rot"]}
+    check_traffic(case2, rec)
+    rec.cls("Z-bound", any(b["tensor"] == "Z" for b in bindings))
+
+
+@st.composite
+def kernel_cases(draw):
+    model = draw(st.sampled_from(["buffet", "cache", "cache"]))
+    M, K, N = draw(st.integers(1, 3)), draw(st.integers(1, 3)), draw(st.integers(1, 4))
+    A = [[draw(st.sampled_from([0, 1, 1, 2])) for _ in range(K)] for _ in range(M)]
+    B = [[draw(st.sampled_from([0, 0, 1, 3])) for _ in range(N)] for _ in range(K)]
+    nslots = draw(st.sampled_from([1, 2, 2, 3]))
+    slots = list(draw(st.permutations(["ZN", "ZN", "BN", "AK", "BK", "AM"])))
+    chosen = []
+    for s in slots:
+        if s not in chosen and len(chosen) < nslots:
+            chosen.append(s)
+    bits = {t + r: [draw(st.sampled_from([1, 2, 4])), draw(st.sampled_from([1, 2, 4]))]
+            for t, rs in TENSOR_RANKS.items() for r in rs}
+    bind = []
+    mf = 1
+    for s in chosen:
+        tensor, rank = SLOTS[s][:2]
+        mode = draw(st.sampled_from(["coord", "payload", "payload", "elem", "coord+payload"]))
+        c, p = bits[tensor + rank]
+        mf = max(mf, {"coord": c, "payload": p, "elem": c + p, "coord+payload": max(c, p)}[mode])
+        n = LOOP.index(rank) + 1
+        bind.append({"slot": s, "mode": mode, "evict": draw(st.sampled_from(["root"] + LOOP[:n - 1] * 2))})
+    line_sz = mf * draw(st.sampled_from([1, 1, 2, 2, 3])) + draw(st.sampled_from([0, 0, 0] + list(range(mf))))
+    lines = draw(st.sampled_from([0, 1, 1, 2, 2, 3, 4, 6, None]))
+    capacity = BIG if lines is None else lines * line_sz + draw(st.integers(0, line_sz - 1))
+    l2 = draw(st.sampled_from([0, 1, 2, 3, 5, 8, None]))
+    capacity2 = BIG if l2 is None else l2 * line_sz + draw(st.integers(0, line_sz - 1))
+    return {"model": model, "dims": [M, K, N], "A": A, "B": B, "bind": bind, "bits": bits,
+            "line_sz": line_sz, "capacity": capacity, "capacity2": capacity2, "rot": draw(st.integers(1, 3))}
+
+
+PARTS.append(Part("kernel", kernel_cases(), check_kernel, n_quick=300, n_thorough=1500))
